@@ -13,7 +13,7 @@ Operations
   reset <a|d|m> <dc>                               new store, new caches
   pol <id> <modidx> <tag> <dcs> <policy>  | delpol <id>
   role <id> <policy ids> <svc ids> <node ids>  | tok <secret> <policy ids> <role ids> <svc ids> <node ids>
-  compile <policy ids> <names>                     ACLPolicies.Compile through the shared caches
+  compile <e|x> <policy ids> <names>               ACLPolicies.Compile through the shared caches (e: print hit + cache sizes)
   resolve <secret> <names>                         ACLResolver.ResolveToken through the shared caches
   purge                                            empty the caches
 -/
@@ -148,15 +148,18 @@ def step (s : St) (toks : List String) : St × String :=
     | some sec, some pids, some rids, some svcs, some nodes =>
       ok { s with store := s.store.putToken ⟨sec, pids, rids, svcs, nodes⟩ }
     | _, _, _, _, _ => bad s
-  | ["compile", ids, ns] =>
-    match parseNames ids, parseNames ns with
-    | some ids, some ns =>
+  | ["compile", mode, ids, ns] =>
+    match parseNames ids, parseNames ns, (mode == "e" || mode == "x") with
+    | some ids, some ns, true =>
       let out := compile s.caches (ids.filterMap s.store.doc)
       let s' := { s with caches := out.caches }
+      let pre := if mode == "e" then
+          s!"h={encBool out.hit} pc={out.caches.parsed.length} ac={out.caches.authz.length} "
+        else "h=- pc=- ac=- "
       match out.authz with
-      | none => (s', s!"h={encBool out.hit} ph={out.parsedHits} err:compile")
-      | some z => (s', s!"h={encBool out.hit} ph={out.parsedHits} p={vector z.decide ns}")
-    | _, _ => bad s
+      | none => (s', pre ++ "err:compile")
+      | some z => (s', pre ++ s!"p={vector z.decide ns}")
+    | _, _, _ => bad s
   | ["resolve", sec, ns] =>
     match decB sec, parseNames ns with
     | some sec, some ns =>
